@@ -1,0 +1,65 @@
+//! Verification hooks, compiled only with the `verif` cargo feature.
+//!
+//! Pass-through wrappers around the private transactional write-cache
+//! (`transactions::StorageTransaction`) and the `transactions::transactional` helper.
+//! They add no behaviour of their own.
+
+use crate::error::AnyResult;
+use crate::transactions::{RepLog, StorageTransaction};
+use cosmwasm_std::{Order, Record, Storage};
+
+/// Pass-through wrapper around the private write-cache type.
+pub struct Overlay<'a>(StorageTransaction<'a>);
+
+impl<'a> Overlay<'a> {
+    /// Creates a write-cache over the given base store.
+    pub fn new(base: &'a dyn Storage) -> Self {
+        Overlay(StorageTransaction::new(base))
+    }
+
+    /// Releases the base and returns the pending operations.
+    pub fn prepare(self) -> Pending {
+        Pending(self.0.prepare())
+    }
+}
+
+impl Storage for Overlay<'_> {
+    fn get(&self, key: &[u8]) -> Option<Vec<u8>> {
+        self.0.get(key)
+    }
+
+    fn range<'b>(
+        &'b self,
+        start: Option<&[u8]>,
+        end: Option<&[u8]>,
+        order: Order,
+    ) -> Box<dyn Iterator<Item = Record> + 'b> {
+        self.0.range(start, end, order)
+    }
+
+    fn set(&mut self, key: &[u8], value: &[u8]) {
+        self.0.set(key, value)
+    }
+
+    fn remove(&mut self, key: &[u8]) {
+        self.0.remove(key)
+    }
+}
+
+/// Pending operations of a prepared write-cache.
+pub struct Pending(RepLog);
+
+impl Pending {
+    /// Applies the pending operations to the given store.
+    pub fn commit(self, storage: &mut dyn Storage) {
+        self.0.commit(storage)
+    }
+}
+
+/// Pass-through to the private `transactional` helper.
+pub fn transactional<F, T>(base: &mut dyn Storage, action: F) -> AnyResult<T>
+where
+    F: FnOnce(&mut dyn Storage, &dyn Storage) -> AnyResult<T>,
+{
+    crate::transactions::transactional(base, action)
+}
